@@ -22,6 +22,7 @@ type LoopSpec struct {
 	Ordinal int
 	Invs    []*Clause
 	Mods    []string // extra havoc hints (variable names)
+	Over    string   // natural name of the loop (the range operand as written): binds the ordinal to that loop
 }
 
 type UnitSpec struct {
@@ -66,7 +67,7 @@ var (
 	reHeaderExtern  = regexp.MustCompile(`^extern\s+(\(\*?[\w./]+\)\.\w+|[\w./]+)\s*\(([^)]*)\)\s*(?:\(([^)]*)\))?\s*$`)
 	reHeaderModel   = regexp.MustCompile(`^(?:model|pred)\s+(\w+)\s*\(([^)]*)\)\s*:=\s*(.*)$`)
 	reClause        = regexp.MustCompile(`^(requires|ensures|cover|modifies|ghost|refines|co|captured-inv|assume-obligation|invariant|panics-only-if|assume|decreases|loop|trusted|abstracted|reveal|props|havoc)\b(?:\[([^\]]+)\])?\s*(.*)$`)
-	reLoop          = regexp.MustCompile(`^#(\d+)\s+(invariant|havoc)\b(?:\[([^\]]+)\])?\s*(.*)$`)
+	reLoop          = regexp.MustCompile(`^#(\d+)(?:\s+over\s+(\S+))?\s+(invariant|havoc)\b(?:\[([^\]]+)\])?\s*(.*)$`)
 )
 
 func splitNames(s string) []string {
@@ -267,13 +268,16 @@ func parseContractFile(path string, cs *ContractSet) error {
 					ls = &LoopSpec{Ordinal: ord}
 					cur.Loops[ord] = ls
 				}
-				if lm[2] == "havoc" {
-					ls.Mods = append(ls.Mods, splitNames(lm[4])...)
+				if lm[2] != "" {
+					ls.Over = lm[2]
+				}
+				if lm[3] == "havoc" {
+					ls.Mods = append(ls.Mods, splitNames(lm[5])...)
 					continue
 				}
-				c := &Clause{Kind: "invariant", Name: lm[3], Line: lineNo}
+				c := &Clause{Kind: "invariant", Name: lm[4], Line: lineNo}
 				ls.Invs = append(ls.Invs, c)
-				s := lm[4]
+				s := lm[5]
 				lastClause, lastSrc = c, &s
 				continue
 			}
